@@ -102,6 +102,18 @@ Proof. exact vtt_doc_exact. Qed.
 Print Assumptions C01_vtt_doc_exact.
 
 (* on ordered documents ignore_timing_errors does not change the result *)
+(* any header block (header text, header lines, NOTE / STYLE / REGION blocks) before the cues and any block after the last
+   cue: lines without an arrow never reach a caption (blocks BETWEEN cues and cue identifiers: vc_pre above) *)
+Theorem C01_vtt_doc_exact_framed : forall strict sh crlf hdr cues trailer,
+  forallb (fun l => no_linebreak l && no_arrow l) hdr = true ->
+  forallb (fun l => no_linebreak l && no_arrow l) trailer = true ->
+  forallb vtt_cue_dom cues = true ->
+  (strict = true -> vtt_sorted_from sh 0 cues = true) ->
+  vtt_read strict sh (render_lines crlf hdr ++ flat_map (vtt_render_cue crlf) cues ++ render_lines crlf trailer)
+  = read_result (vtt_expected_caps sh cues).
+Proof. exact vtt_doc_exact_framed. Qed.
+Print Assumptions C01_vtt_doc_exact_framed.
+
 Theorem C01_vtt_validation_transparent : forall sh crlf cues, forallb vtt_cue_dom cues = true ->
   vtt_sorted_from sh 0 cues = true ->
   vtt_read true sh (vtt_render crlf cues) = vtt_read false sh (vtt_render crlf cues).
@@ -218,3 +230,10 @@ Example C01_ex_begin_dur_two_readings :
   let p := mkP (Offset 0 1 [] Mf) true (Offset 0 2 [] Mf) in
   dfxp_p_expected p = (33333, 99999) /\ dfxp_p_expected_alt p = (33333, 100000).
 Proof. vm_compute. split; reflexivity. Qed.
+Example C01_ex_vtt_framed :
+  let cues := [mkVttCue [lit "id-1"] (mkVtt None 0 1 0) (mkVtt None 0 2 500) [32] [32] None [lit "x"] 0] in
+  vtt_read true 0 (render_lines false [lit "WEBVTT - a title"; lit "Kind: captions"; []; lit "STYLE"; lit "::cue { color: red }"; []]
+                   ++ flat_map (vtt_render_cue false) cues
+                   ++ render_lines false [lit "NOTE the end"; lit "of the file"])
+  = Ok [(1000000, 2500000, [lit "x"])].
+Proof. vm_compute. reflexivity. Qed.
